@@ -59,6 +59,7 @@ class Scheduler:
         self.switches = 0
         self.max_switches = max_switches
         self.hang = None
+        self.parent_alone = 0
         self.trace = []
 
     # -- choosing
@@ -102,6 +103,13 @@ class Scheduler:
         cands = self.runnable()
         if not cands:
             self._deadlock("no process can make progress: " + ", ".join(f"{t.name}{'' if t.worker_id is None else t.worker_id}" for t in self.tasks if not t.done))
+        # the parent polling on and on while every other live process is blocked for good is a hang as well
+        if len(cands) == 1 and cands[0] is self.parent and me is self.parent and any(not t.done for t in self.tasks if t is not self.parent):
+            self.parent_alone += 1
+            if self.parent_alone > 2000:
+                self._deadlock("the parent keeps polling while no other process can make progress: " + ", ".join(f"{t.name}{'' if t.worker_id is None else t.worker_id}" for t in self.tasks if not t.done and t is not self.parent))
+        else:
+            self.parent_alone = 0
         nxt = self.choose(cands)
         if nxt is not me:
             self.current = nxt
@@ -335,7 +343,7 @@ class CoopContext:
         self.processes = []
         self.polls = 0
         self.timeouts = 0
-        self.max_polls = 3000
+        self.max_polls = 100000  # backstop only: hangs are recognised as deadlocks (see Scheduler.switch)
 
     def Queue(self, maxsize=0):
         q = CoopQueue(self, maxsize)
